@@ -241,6 +241,48 @@ def check_queue(ctx, out):
     out.inst("C01.hunk", n, 1, ["for hunk in hunks { for line in hunk.lines() {..}; flush }"])
 
 
+def _range_is_unread(b, st):
+    """the aggregate built by `st` (and the locals it is moved into) is never read: no place rooted in them occurs
+    anywhere but in those moves"""
+    if st["lhs"]["p"]:
+        return False
+    targets = {st["lhs"]["l"]}
+    moves = set()
+    for _ in range(4):
+        for bi, j, s2 in b.assigns():
+            rv = s2["rv"]
+            pl = (rv["op"].get("m") or rv["op"].get("c")) if rv["k"] == "use" and isinstance(rv.get("op"), dict) else None
+            if pl is not None and not pl["p"] and pl["l"] in targets and not s2["lhs"]["p"]:
+                targets.add(s2["lhs"]["l"])
+                moves.add(id(s2))
+    for bi, j, s2 in b.assigns():
+        if s2 is st or id(s2) in moves:
+            continue
+        rv = s2["rv"]
+        ops = [rv.get("op"), rv.get("a"), rv.get("b")] + list(rv.get("ops") or [])
+        for o in ops:
+            pl = (o.get("c") or o.get("m")) if isinstance(o, dict) else None
+            if pl is not None and pl["l"] in targets:
+                return False
+        if "place" in rv and rv["place"]["l"] in targets:
+            return False
+    for bi, t in b.calls():
+        for o in t["args"]:
+            pl = o.get("c") or o.get("m")
+            if pl is not None and pl["l"] in targets:
+                return False
+    for blk in b.blocks:
+        t = blk["term"]
+        if t and t["k"] == "switch":
+            pl = t["op"].get("c") or t["op"].get("m")
+            if pl is not None and pl["l"] in targets:
+                return False
+        if t and t["k"] == "drop" and t.get("place", {}).get("l") in targets:
+            continue
+    # the function's own result is a read
+    return 0 not in targets
+
+
 def check_units(ctx, out):
     """Char-unit values (similar::DiffOp indices from TextDiff::from_chars) reach byte-unit sinks
     only through a char->byte table."""
@@ -264,6 +306,10 @@ def check_units(ctx, out):
                     conv = P.has_call(labs, r"Index<.*>>::index$|ops::Index::index$") and P.has_call(labs, r"<impl str>::char_indices$")
                     if conv:
                         n += 1
+                    elif _range_is_unread(b, s):
+                        # a range *of characters* that was only an argument of a converting helper: once the helper is
+                        # looked through, its two ends are used directly (as table indices) and the range itself is never read
+                        pass
                     else:
                         out.viol("C01.units", "C01.units|range-bound|%s" % b.id, ctx.where(b, s["span"]),
                                  "a changed-range bound is a character index of the intra-line diff used as it is; ranges are compared with byte columns, so on lines with multi-byte characters the change is attributed to the wrong columns (expected a char->byte conversion, e.g. indexing a table built from char_indices())")
